@@ -15,7 +15,7 @@ func (ex *Exec) safeOblige(st *State, kind string, goal T) {
 	}
 	ex.nsafe[kind]++
 	name := fmt.Sprintf("safe:%s:%s:%d", ex.conName(), kind, ex.nsafe[kind])
-	ex.vc.oblige("safe", name, st.guard, goal, ex.pos(token.NoPos))
+	ex.vc.oblige("safe", name, st.guard, goal, ex.pos(ex.curPos))
 	// after the check the program continues only if it held
 	ex.vc.assume(st.guard, goal)
 }
@@ -29,6 +29,9 @@ func (ex *Exec) conName() string {
 
 func (ex *Exec) execInstr(b *ssa.BasicBlock, st *State, in ssa.Instruction) {
 	vc := ex.vc
+	if in.Pos().IsValid() {
+		ex.curPos = in.Pos()
+	}
 	switch in := in.(type) {
 	case *ssa.DebugRef:
 	case *ssa.Phi:
